@@ -76,6 +76,35 @@ def run(ctx):
                 if np.abs(outp[name] - out[name][perm]).max() > tol * max(1.0, np.abs(out[name]).max()):
                     spec_fail.append((kind, f"permuting the walkers permutes the outputs in the same way ({name})",
                                       {"norb": norb, "nelec": ne, "n_batch": nb, "max_diff": float(np.abs(outp[name] - out[name][perm]).max())}))
+    # ---- storage format at the public entry points: array W vs list [W, W] for every kind that offers both
+    fmt_cases = 0
+    for kind, norb, ne in [("rhf", 4, (2, 2)), ("uhf", 4, (2, 2)), ("noci", 3, (1, 1)), ("multislater", 4, (2, 2)), ("multislater", 3, (1, 1)),
+                           ("UCISD", 3, (1, 1)), ("ucisd", 4, (2, 2)), ("ghf", 3, (1, 1))]:
+        if not trials.supported(kind, norb, ne) or kind in trials.RESTRICTED_ONLY:
+            continue
+        try:
+            trial, wd, desc = trials.make(kind, rng, norb, ne, **wf.make_opts(kind, rng))
+            ham, plain = trials.make_ham(rng, norb, nchol=2)
+            ham = trial._build_measurement_intermediates(dict(ham), wd)
+            W = wf.walkers(rng, norb, ne, 4, restricted=True)
+            for name, fn in (("overlap", lambda w: trial.calc_overlap(w, wd)), ("force_bias", lambda w: trial.calc_force_bias(w, ham, wd)),
+                             ("energy", lambda w: trial.calc_energy(w, ham, wd))):
+                try:
+                    a = np.array(fn(W))
+                except NotImplementedError:
+                    continue
+                b = np.array(fn([W, W]))
+                fmt_cases += 1
+                tol = 1e-9 if (name != "energy" or kind in ("rhf", "uhf", "ghf", "noci")) else (5e-4 if kind == "ucisd" else 1e-5)
+                if a.shape != b.shape or np.abs(a - b).max() > tol * max(1.0, np.abs(b).max()):
+                    spec_fail.append((kind, f"restricted walkers W and unrestricted walkers [W, W] give the same {name}",
+                                      {"norb": norb, "nelec": ne, "max_diff": float(np.abs(a - b).max()) if a.shape == b.shape else None,
+                                       "max_excitation": getattr(trial, "max_excitation", None)}))
+        except NotImplementedError:
+            continue
+        except Exception as ex:
+            spec_fail.append((kind, "both storage formats can be evaluated", {"norb": norb, "nelec": ne, "error": repr(ex)[:300]}))
+    evals += fmt_cases
     # ---- propagate / _apply_trotprop: permutation and batch count
     for wt, tk, ne in (("restricted", "rhf", (2, 2)), ("unrestricted", "uhf", (2, 1))):
         seed = rng.randrange(1 << 30)
